@@ -70,6 +70,7 @@ type Op struct {
 	Spare       int      `json:"spare,omitempty"`
 	ScribbleArg bool     `json:"scribble_arg,omitempty"`
 	ScribbleRes bool     `json:"scribble_res,omitempty"`
+	ReuseBuf    bool     `json:"reuse_buf,omitempty"` // pass the same slice object as the task's previous private argument, refilled
 	Fam         int      `json:"fam"`
 	Expect      string   `json:"expect"`
 }
